@@ -77,8 +77,10 @@ def run(ctx):
                 "= fresh object = standalone rater = other process with another PYTHONHASHSEED; non-trivial = "
                 "distinct (state, regressor, training set, names, lda)")
     c03.common_setup(ctx, "C09")
+    ctx.check_rating_value = True
     c03.run_histories(ctx, "C09", focus=(1.5, 3, 1.5, 5, 1.5), nhist=30 if ctx.tier == "quick" else 600,
-                      check_fresh=False, direct_pp_edits=False)
+                      check_fresh=False, direct_pp_edits=False,
+                      directed=lambda name: name.startswith(("rate", "pp(P1)", "fit()", "fit(weight", "set")))
     from nanite.rate import rater as nrater
     from nanite.rate import IndentationRater
     regs = ["Extra Trees", "none", "Decision Tree"] if ctx.tier == "quick" else \
@@ -132,6 +134,22 @@ def run(ctx):
                                 if c != a:
                                     ctx.violation("differs-from-standalone-rater",
                                                   f"rate_quality gives {a}, the standalone rater {c}", {"input": meta})
+        # using the rater API with own regressor keyword arguments must not change later ratings
+        from nanite.rate import regressors as nreg
+        snap = copy.deepcopy({k: v[1] for k, v in nreg.reg_dict.items()})
+        with warnings.catch_warnings():
+            warnings.simplefilter("ignore")
+            a = dict(state_classes(2))["fitted"].rate_quality(regressor="Extra Trees")
+            nrater.get_rater("Extra Trees", n_estimators=3, max_depth=2)
+            nrater.get_rater("Decision Tree", max_depth=2)
+            b_ = dict(state_classes(2))["fitted"].rate_quality(regressor="Extra Trees")
+        ctx.case({"oracle": "reg_kwargs isolation"}, nontrivial="reg-kwargs", bucket="stream=reg-kwargs")
+        if a != b_ or snap != {k: v[1] for k, v in nreg.reg_dict.items()}:
+            ctx.violation("rating-depends-on-earlier-get_rater-kwargs",
+                          f"after get_rater('Extra Trees', n_estimators=3, max_depth=2) the rating of an equal fresh "
+                          f"curve changed from {a!r} to {b_!r} (regressor defaults were modified in place)",
+                          {"input": {"calls": ["rate_quality", "get_rater(..., n_estimators=3, max_depth=2)",
+                                               "rate_quality on a fresh equal curve"]}})
         # other processes / hash seeds
         here = os.path.dirname(os.path.dirname(os.path.abspath(__file__)))
         outs = []
